@@ -32,6 +32,7 @@ fn main() {
             }
         }
         "contend" => statics::contend(rest),
+        "deep" => statics::deep(rest),
         "compress" => compress::cases(rest),
         "c17" => c17::run(rest),
         "graph" => graph::cases(rest),
